@@ -4,11 +4,19 @@ Line protocol of the driver `gm_c09`:
   gcov.text <hex bytes of the .gcov file>     -> ok K<hex>=<cov> … | err <Kind> | panic
   gcov.json <tree>                            -> the same; `!` as the tree = reader error
 
+  gcovjsontree <hex bytes of the JSON text> {<hex token>=<+|-><m>p<+|-><e>}
+        -> the value tree `JsonBytes.readTree` reads (tree syntax below, objects as serde_json's
+           `Value` holds them: last duplicate wins, keys ascending) | `!` (reader error);
+           the trailing arguments give the f64 value ±m·2^±e of each number token that is not a
+           u64 / i64 integer literal (serde_json's float reader is a parameter of the model)
+  gcovjsonbytes <hex bytes> {<hex token>=…}   -> `JsonBytes.parseGcovJsonBytes`, answers as gcov.json
+
 Tree syntax (no blanks): `n` null, `t`/`f` booleans, `i<dec>;` non-negative integer, `m<dec>;`
 negative integer −<dec>, `d<+|-><m>p<+|-><e>;` the float ±m·2^±e, `s<hex>;` string,
 `[`…`]` array, `{` (`s<hex>;` value)* `}` object.
 -/
 import GrcovModel.Gcov
+import GrcovModel.Gcov.JsonBytes
 import GrcovModel.Drv.Merge
 namespace Grcov.Drv
 open Grcov Grcov.Gcov
@@ -123,10 +131,80 @@ def handleGcovJson : List String → String
     | none => "bad-op"
   | _ => "bad-op"
 
+/-- `<hex token>=<+|-><m>p<+|-><e>` -/
+def parseFltArg (s : String) : Option (List Nat × JNum) :=
+  match s.splitOn "=" with
+  | [h, v] => do
+    let tok ← fromHex h
+    match v.toList with
+    | sg :: cs1 => do
+      let neg ← signOf sg
+      let (md, r1) ← takeUntil 'p' cs1
+      match r1 with
+      | esg :: r2 => do
+        let eneg ← signOf esg
+        let m ← natOf md
+        let e ← natOf r2
+        pure (tok, .flt neg m (if eneg then -(Int.ofNat e) else Int.ofNat e))
+      | [] => none
+    | [] => none
+  | _ => none
+
+def fltOracle (tab : List (List Nat × JNum)) (t : List Nat) : Option JNum :=
+  (tab.find? fun p => p.1 == t).map (·.2)
+
+def showJNum : JNum → String
+  | .pos n => s!"i{n};"
+  | .neg n => s!"m{n};"
+  | .flt neg m e => s!"d{if neg then "-" else "+"}{m}p{if e < 0 then "-" else "+"}{e.natAbs};"
+
+def lastWins (kvs : List (List Nat × String)) : List (List Nat × String) :=
+  kvs.foldl (fun m kv => AList.set m kv.1 kv.2) []
+
+mutual
+def showTree : Json → String
+  | .null => "n"
+  | .bool true => "t"
+  | .bool false => "f"
+  | .num n => showJNum n
+  | .str s => s!"s{toHex s};"
+  | .arr xs => "[" ++ showTrees xs ++ "]"
+  | .obj kvs =>
+    let items := (lastWins (showMembers kvs)).map fun (k, v) => (toHex k, v)
+    let sorted := items.mergeSort fun a b => !(b.1 < a.1)
+    "{" ++ String.join (sorted.map fun (k, v) => s!"s{k};{v}") ++ "}"
+def showTrees : List Json → String
+  | [] => ""
+  | x :: xs => showTree x ++ showTrees xs
+def showMembers : List (List Nat × Json) → List (List Nat × String)
+  | [] => []
+  | (k, v) :: r => (k, showTree v) :: showMembers r
+end
+
+def withBytesArgs (args : List String) (k : (List Nat → Option JNum) → List Nat → String) : String :=
+  match args.filter (· ≠ "") with
+  | [] => k (fun _ => none) []
+  | h :: rest =>
+    let (h, rest) := if h.contains '=' then ("", h :: rest) else (h, rest)
+    match fromHex h, rest.mapM parseFltArg with
+    | some bs, some tab => k (fltOracle tab) bs
+    | _, _ => "bad-op"
+
+def handleGcovJsonTree (args : List String) : String :=
+  withBytesArgs args fun flt bs =>
+    match Gcov.JsonBytes.readTree flt bs with
+    | some j => showTree j
+    | none => "!"
+
+def handleGcovJsonBytes (args : List String) : String :=
+  withBytesArgs args fun flt bs => showGcovOut (Gcov.JsonBytes.parseGcovJsonBytes flt bs)
+
 def stepC09 (line : String) : String :=
   match line.trimAscii.toString.splitOn " " with
   | "gcov.text" :: args => handleGcovText args
   | "gcov.json" :: args => handleGcovJson args
+  | "gcovjsontree" :: args => handleGcovJsonTree args
+  | "gcovjsonbytes" :: args => handleGcovJsonBytes args
   | _ => "bad-op"
 
 end Grcov.Drv
